@@ -12,7 +12,7 @@ start instant = `SEC` seconds + `NSEC` ns after Go's zero time; `I`, `OFF` in ns
 
 Output tokens: `tr=<start.Truncate(I)>`, then in order of occurrence `w<d>` (what `AddNext` advanced by),
 `v<value>` / `e` (T: result of a receive), `f<clock>,<delta>` (F: a flush: clock reading inside `Process` and
-the interval handed to `Aggregator.Flush`; the first delta is `NOW` because it is measured from
+the interval handed to `Aggregator.Flush`; the first delta is printed `FIRST` (the property constrains the later ones only) because it is measured from
 `time.Now()`), and in mode T finally `left=<value still in the channel or ->`.
 -/
 namespace Gsd.Driver.C18
@@ -57,7 +57,7 @@ def runModel (line : String) : String :=
       | .got v :: r => s!"v{v}" :: render r k
       | .empty :: r => "e" :: render r k
       | .flush c _ :: r =>
-        (if k = 0 then s!"f{c},NOW" else s!"f{c},{ds[k - 1]?.getD 0}") :: render r (k + 1)
+        (if k = 0 then s!"f{c},FIRST" else s!"f{c},{ds[k - 1]?.getD 0}") :: render r (k + 1)
     let tail := if c.flusher then [] else [match s.ch.chan with | some v => s!"left={v}" | none => "left=-"]
     unwords ([s!"tr={trunc c.start c.i}"] ++ render s.evs 0 ++ tail)
 
@@ -147,7 +147,7 @@ def specF (c : Case) (toks : List String) : String :=
         | some cl =>
           if cl < lastClock then s!"FAIL clock-backwards flush {k}" else
           if k = 0 then
-            if d = "NOW" then go rest 1 0 cl else s!"FAIL first-delta {d}"
+            if d = "FIRST" then go rest 1 0 cl else s!"FAIL first-delta {d}"
           else
             match intOfTok d with
             | none => s!"FAIL delta-not-measured-on-the-flush-clock flush {k}: {d}"
